@@ -169,6 +169,16 @@ Section Frames.
                      | _, _ => match as_x a, as_x b with Some x, Some y => Some (of_x (f x y)) | _, _ => None end
                      end
     | _ => None end.
+  (* maximum / minimum since /repo 73dee51: when(any_horizontal(is_null)).then(None).otherwise(max_horizontal ...): a null operand
+     gives null; a NaN operand is still skipped by max_horizontal when another number is present *)
+  Definition pl_propagate_null (f : xnum -> xnum -> xnum) (l : list sval) : option sval :=
+    match l with
+    | [a; b] => if negb (numish a && numish b) then None
+                else match a, b with
+                     | SNull, _ | _, SNull => Some SNull
+                     | _, _ => pl_horizontal f l
+                     end
+    | _ => None end.
   Definition pl_math (name : string) (l : list sval) : option sval :=
     if String.eqb name "expm1" then None                               (* Expr has no attribute expm1: raises *)
     else pl1 (fun x => match x with
@@ -208,15 +218,17 @@ Section Frames.
                                                                       | _ => Some (of_x x) end) [a]
                                             | None => None end
                           | _ => None end);
-      ("maximum", pl_horizontal xmax); ("fmax", pl_horizontal xmax);       (* all four are max_horizontal / min_horizontal *)
-      ("minimum", pl_horizontal xmin); ("fmin", pl_horizontal xmin);
+      ("maximum", pl_propagate_null xmax); ("fmax", pl_horizontal xmax);   (* fmax / fmin are max_horizontal / min_horizontal *)
+      ("minimum", pl_propagate_null xmin); ("fmin", pl_horizontal xmin);
       (* when(a.is_null()).then(None).otherwise(when(a).then(b).otherwise(c)) *)
       ("if_else", fun l => match l with [SBool true; x; _] => Some x | [SBool false; _; y] => Some y | [SNull; _; _] => Some SNull | _ => None end);
       ("where", fun l => match l with [SBool true; x; _] => Some x | [SBool false; _; y] | [SNull; _; y] => Some y | _ => None end);
       ("coalesce", fun l => match l with [SNull; b] => Some b | [a; _] => Some a | _ => None end);                   (* pl.coalesce: first non-null *)
       ("is_null", fun l => match l with [a] => Some (SBool (match a with SNull => true | _ => false end)) | _ => None end);
       ("is_nan", pl1 (fun x => Some (SBool (match x with XNaN => true | _ => false end))));        (* null stays null *)
-      ("is_inf", pl1 (fun x => Some (SBool (match x with XPInf | XNInf => true | _ => false end))));
+      ("is_inf", fun l => match l with                                      (* x.is_infinite().fill_null(False) since 73dee51 *)
+                          | [SNull] => Some (SBool false)
+                          | _ => pl1 (fun x => Some (SBool (match x with XPInf | XNInf => true | _ => false end))) l end);
       ("is_bad", fun l => match l with [a] => if numish a then Some (SBool (bad_py a)) else None | _ => None end);  (* is_null | is_infinite | is_nan, Kleene *)
       ("is_in", fun l => match l with SNull :: _ => Some SNull | x :: elems => if missing x then Some (SBool false) else option_map SBool (mem_cmp x elems) | _ => None end);
       ("mapv", fun l => match l with x :: dflt :: kv => pl_when_chain x kv dflt | _ => None end);                    (* _mapv: chain of when(a == k) *)
